@@ -27,7 +27,7 @@ _thermo = {}
 
 def required(tier):
     return ['vle:TP', 'vle:TV', 'vle:PV', 'vle:PH', 'vle:PS', 'vle:TH', 'vle:TS', 'vle:Px', 'vle:Tx', 'vle:Py', 'vle:Ty', 'lle', 'sle', 'vlle', 'via:mix_from', 'via:separations.vle', 'via:receive_vent',
-            'locked:gas', 'locked:heavy', 'single-component', 'repeated-call']
+            'locked:gas', 'locked:heavy', 'locked-only', 'locked:misplaced', 'single-component', 'repeated-call']
 
 
 def chem(i):
@@ -61,13 +61,14 @@ def gen_case(rng):
     t = rng.choices(['vle', 'vle', 'vle', 'vle', 'lle', 'sle', 'vlle', 'via'], [6, 6, 6, 6, 3, 2, 1, 3])[0]
     c = {'t': t}
     if t in ('vle', 'via', 'vlle'):
-        n = rng.choice([1, 2, 2, 3, 3, 4, 5])
+        n = rng.choice([0, 1, 2, 2, 3, 3, 4, 5])         # 0: only phase-locked chemicals present
         ids = rng.sample(VOL, n)
-        if rng.random() < 0.35: ids.append(rng.choice(['N2', 'CO2']))
-        if rng.random() < 0.3: ids.append(rng.choice(['Glucose', 'Glycerol']))
+        if rng.random() < 0.35 or n == 0: ids.append(rng.choice(['N2', 'CO2']))
+        if rng.random() < 0.3 or (n == 0 and rng.random() < 0.7): ids.append(rng.choice(['Glucose', 'Glycerol']))
+        c['misplaced'] = rng.random() < 0.5            # locked chemicals start in the phase they cannot exist in (every initial distribution)
         c['ids'] = ids
         c['flows'] = [round(10 ** rng.uniform(-3, 3), 5) if rng.random() < 0.9 else 0.0 for _ in ids]
-        if not any(c['flows'][:n]): c['flows'][0] = 1.0
+        if not any(c['flows'][:max(n, 1)]): c['flows'][0] = 1.0
         c['dist'] = [rng.choice([0.0, 1.0, round(rng.random(), 3)]) for _ in ids]    # fraction initially in the gas phase
         pair = rng.choice(['TP', 'TP', 'TV', 'PV', 'PV', 'PH', 'PH', 'PS', 'TH', 'TS', 'Tx', 'Ty', 'Px', 'Py', 'Tx', 'Ty', 'Px', 'Py'])
         if pair[1] in 'xy':
@@ -138,7 +139,10 @@ def make_stream(case, th):
     for i, v, d in zip(case['ids'], case['flows'], case['dist']):
         if not v: continue
         ls = chem(i).locked_state
-        if ls == 'g': s.imol['g', i] = v
+        if ls and case.get('misplaced'):
+            if d > 0: s.imol['g', i] = v * d
+            if d < 1: s.imol['l', i] = v * (1 - d)
+        elif ls == 'g': s.imol['g', i] = v
         elif ls: s.imol['l', i] = v
         else:
             if d > 0: s.imol['g', i] = v * d
@@ -241,6 +245,8 @@ def run_case(case, rec):
                 rec.exception(tag.split('/')[0] if t == 'vle' else 'via', e, what=f'{tag} on {case["ids"]} raised {type(e).__name__}: {str(e)[:140]}'); return
             if t == 'vle':
                 rec.hit(tag)
+                if nvol == 0: rec.hit('locked-only')
+                if case.get('misplaced') and any(chem(i).locked_state for i in case['ids']): rec.hit('locked:misplaced')
                 if nvol == 1: rec.hit('single-component')
                 judge(rec, tag, tag, before, after, s, case)
                 if case.get('repeat'):
